@@ -219,11 +219,12 @@ def cbtf(m, b, k, a, freq, bset, save=None):
 
     pvnz = Omega != 0.0
     if qset.size == 0:
-        accel = a.copy()
+        accel = np.zeros(a.shape, dtype=complex)
+        accel[bset] = a
         displ = np.zeros(a.shape, dtype=complex)
         displ[:, pvnz] = -accel[:, pvnz] / Omega[pvnz] ** 2
         veloc = 1j * (Omega * displ)
-        frc = m @ accel + b @ veloc + k @ displ
+        frc = m[bset] @ accel + b[bset] @ veloc + k[bset] @ displ
     else:
         tf = None
         if isinstance(save, abc.MutableMapping):
